@@ -12,7 +12,7 @@ def get_individual_id(individual: Individual) -> str:
     Tree structure in `treelib` requires identifiers for nodes. This function returns
     a string representation of the individual's genome, which usually is unique for each individual.
     """
-    return str(individual.genome)
+    return individual.genome.tobytes().hex()
 
 
 class NearestBetterClustering:
